@@ -525,6 +525,8 @@ def show(t, depth=0) -> str:
         return repr(t)
     h = t[0]
     s = show
+    if not isinstance(h, str):
+        return '(' + ', '.join(s(x) if isinstance(x, tuple) else repr(x) for x in t) + ')'
     if h == 'num':
         return str(t[1])
     if h == 'const':
